@@ -28,12 +28,16 @@ EXTENDS Naturals, Sequences, FiniteSets, TLC
 
 CONSTANTS
   Statuses,            \* HTTP status codes of final answers
-  Retryable,           \* statuses on which a submission is repeated (jsonclient: 408, 429, 503)
-  RetryBodies,         \* body classes sent along with a retryable status to a submission
-  AfterRetryStatuses,  \* statuses of the answer that follows a retryable one
-  MaxAnswers,          \* answers per call (retries + 1)
+  RetryStatuses,       \* exploration bound: the retryable statuses that are sent to submissions
+  RetryBodies,         \* exploration bound: body classes sent along with a retryable status
+  UndecodableBodies,   \* exploration bound: undecodable 200 bodies after which the repeated request is answered
+  AfterRetryStatuses,  \* exploration bound: statuses of an answer to a repeated request
+  MaxAnswers,          \* answers per call (repetitions + 1)
   MaxCalls,            \* calls per behaviour
   CarryLayers          \* failure layers for which "the error carries status and body" is asserted
+
+\* jsonclient.PostAndParseWithRetry: statuses on which a submission is made again
+Retryable == {408, 429, 503}
 
 None == [k |-> "none"]
 
@@ -80,7 +84,7 @@ STHClass ==
     sigOverSCTInput       |-> [STHValid EXCEPT !.over = "otherSignatureType"] ]
 
 (* signed certificate timestamp *)
-SCTValid == [ext |-> "empty", idLen |-> 32, id |-> "keyhash", version |-> "v1", sigForm |-> "ok", alg |-> "ok",
+SCTValid == [ext |-> "empty", extForm |-> "ok", idLen |-> 32, id |-> "keyhash", version |-> "v1", sigForm |-> "ok", alg |-> "ok",
              signer |-> "log", over |-> "same"]
 SCTClass ==
   [ valid                     |-> SCTValid,
@@ -93,6 +97,7 @@ SCTClass ==
     logIDForeign              |-> [SCTValid EXCEPT !.id = "foreign"],
     logIDForeignSignedByOwner |-> [SCTValid EXCEPT !.id = "foreign", !.signer = "otherKey"],
     versionOther              |-> [SCTValid EXCEPT !.version = "other"],
+    extBadBase64              |-> [SCTValid EXCEPT !.extForm = "notBase64"],
     sigMissing                |-> [SCTValid EXCEPT !.sigForm = "missing"],
     sigTrailingTLS            |-> [SCTValid EXCEPT !.sigForm = "trailing"],
     sigTruncatedTLS           |-> [SCTValid EXCEPT !.sigForm = "truncated"],
@@ -158,20 +163,27 @@ IdIsKeyHash(r) == r.idLen = 32 /\ r.id = "keyhash"
 STHVerdict(r) ==
   IF r.rootLen # 32 \/ r.sigForm # "ok" THEN "error" ELSE IF SigVerifies(r) THEN "ok" ELSE "error"
 SCTVerdict(r) ==
-  IF r.idLen # 32 \/ r.sigForm # "ok" \/ r.version # "v1" THEN "error"
+  IF r.idLen # 32 \/ r.sigForm # "ok" \/ r.version # "v1" \/ r.extForm # "ok" THEN "error"
   ELSE IF ~SigVerifies(r) THEN "error"
   ELSE IF r.id # "keyhash" THEN "error"
   ELSE "ok"
 
-\* verdict on the final answer a = [status, class] of a call of method m: <<outcome, layer>>
-Decide(m, a) ==
+\* The response structure of a submission is reused across repetitions: when an earlier 200 body of the same call
+\* failed to decode it may have been decoded in part, and fields that a later answer omits keep those values.  What
+\* comes back then is stitched from two answers; the property only demands that it verifies.
+OmitsFields == {"jsonNull", "sigMissing"}
+
+\* verdict on the final answer a = [status, class] of a call of method m: <<outcome, layer>>;
+\* stale: an undecodable 200 body was received earlier in the same call
+Decide(m, a, stale) ==
   IF a.status # 200 THEN <<"error", "http">>
   ELSE IF a.class \in TransportBad THEN <<"error", "http">>
   ELSE IF a.class \in JsonBad THEN <<"error", "json">>
   ELSE IF m = "GetSTH" THEN
          IF a.class = "trailingJunk" THEN <<"any", "signed">> ELSE <<STHVerdict(STHClass[a.class]), "signed">>
   ELSE IF m \in AddMethods THEN
-         IF a.class = "trailingJunk" THEN <<"any", "signed">> ELSE <<SCTVerdict(SCTClass[a.class]), "signed">>
+         IF a.class = "trailingJunk" \/ (stale /\ a.class \in OmitsFields) THEN <<"any", "signed">>
+         ELSE <<SCTVerdict(SCTClass[a.class]), "signed">>
   ELSE IF a.class \in Ambiguous THEN <<"any", "json">>
   ELSE IF m = "GetEntries" /\ a.class \in EntryClasses THEN <<EntryExpect[a.class].parsed, "entry">>
   ELSE IF m = "GetRawEntries" /\ a.class \in EntryClasses THEN
@@ -221,20 +233,30 @@ Complete(answers, end, outcome, layer, returns) ==
      /\ last' = step
      /\ hist' = Append(hist, step)
 
+\* A submission is made again (after a pause that is C13's subject) when the answer carries a retryable status,
+\* and also when a 200 answer cannot be decoded as JSON: PostAndParseWithRetry treats every failure of PostAndParse
+\* as transient.  The property is silent on this; the clause is named so that the replay follows the code.
+AsksAgain(m, st, cl) == m \in AddMethods /\ (st \in Retryable \/ (st = 200 /\ cl \in JsonBad))
+\* exploration bound: which repeated requests get an answer (the others only see the context expire)
+FollowedUp(a) == \/ a.status \in RetryStatuses /\ a.class \in RetryBodies
+                 \/ a.status = 200 /\ a.class \in UndecodableBodies
+
 \* the server answers the outstanding request
 Answer(st, cl) ==
   /\ pending # None
+  /\ Len(pending.answers) < MaxAnswers
   /\ cl \in ClassesFor(pending.method)
+  /\ pending.answers # <<>> => FollowedUp(pending.answers[Len(pending.answers)]) /\ st \in AfterRetryStatuses \cup RetryStatuses
   /\ LET ans == Append(pending.answers, [status |-> st, class |-> cl])
-         d == Decide(pending.method, [status |-> st, class |-> cl])
-     IN IF pending.method \in AddMethods /\ st \in Retryable
-          THEN \* jsonclient.PostAndParseWithRetry: the body is ignored, the request is made again
-               /\ Len(ans) < MaxAnswers
-               /\ cl \in RetryBodies
+         d == Decide(pending.method, [status |-> st, class |-> cl],
+                     \E i \in 1..Len(pending.answers) : pending.answers[i].status = 200)
+     IN IF AsksAgain(pending.method, st, cl)
+          THEN \* the body is dropped, the request is made again
+               /\ st \in Retryable => st \in RetryStatuses /\ cl \in RetryBodies
                /\ pending' = [pending EXCEPT !.answers = ans]
                /\ last' = None
                /\ UNCHANGED <<Returned, ncalls, hist>>
-          ELSE /\ st \in (IF pending.answers = <<>> THEN Statuses ELSE AfterRetryStatuses)
+          ELSE /\ pending.answers = <<>> => st \in Statuses
                /\ cl \notin TransportBad \/ st = 200
                /\ \E returns \in (IF d[1] = "any" THEN BOOLEAN ELSE {d[1] = "ok"}) :
                       Complete(ans, "answered", d[1], d[2], returns)
@@ -251,14 +273,14 @@ Drop ==
   /\ Complete(pending.answers, "dropped", "error", "transport", FALSE)
 
 Next == \/ \E m \in Methods : \E ch \in ChainsFor(m) : Invoke(m, ch)
-        \/ \E st \in Statuses \cup Retryable \cup AfterRetryStatuses : \E cl \in UNION {ClassesFor(m) : m \in Methods} : Answer(st, cl)
+        \/ \E st \in Statuses \cup RetryStatuses \cup AfterRetryStatuses : \E cl \in UNION {ClassesFor(m) : m \in Methods} : Answer(st, cl)
         \/ Expire
         \/ Drop
 
 Spec == Init /\ [][Next]_vars
 
 (* --------------------------- the property ---------------------------- *)
-TypeOK == /\ pending = None \/ (pending.method \in Methods /\ Len(pending.answers) < MaxAnswers)
+TypeOK == /\ pending = None \/ (pending.method \in Methods /\ Len(pending.answers) <= MaxAnswers)
           /\ ncalls \in 0..MaxCalls
 
 \* every STH ever handed back carries a 32-byte root and a signature of the configured key over its own fields
